@@ -258,7 +258,7 @@ def build_array(vals, rep):
         elif kind == "dates":
             idx = pd.date_range("2001-03-01", periods=n, freq="D")[::-1]
         elif kind == "tz":
-            idx = pd.date_range("2001-03-01", periods=n, freq="h", tz="Australia/Sydney")
+            idx = pd.date_range("2001-03-01", periods=n, freq="h", tz="Australia/Sydney", unit="s")
         elif kind == "text":
             idx = [f"k{(7 * i) % 5}" for i in range(n)]
         elif kind == "shuffled":
@@ -355,7 +355,7 @@ def run_impl(case):
     with warnings.catch_warnings():
         warnings.simplefilter("ignore")
         mean, ini, out, exc, _ = call_impl(case["kind"], params, series, mean_arg, ini_arg)
-    if exc is not None and not exc.startswith("ValueError"):
+    if exc is not None:
         if uses_undocumented(case) and exc.startswith(("TypeError", "AttributeError")):
             raise Unsupported(exc)
         case["exception"] = exc
@@ -489,14 +489,16 @@ def session(ctx, rng, sid):
     import warnings
     scale = rng.choice([1.0, 1.0, 1e3])
     lens = [rng.choice([1, 2, 3, 5, 8, rng.randint(4, 30)]) for _ in range(2)]
-    pool, initial = {}, {}
+    pool, initial, layouts = {}, {}, {}
     pnames, snames = [], []
     for k in range(rng.randint(2, 3)):
         order = rng.choice([rng.randint(1, 10), lens[k % 2] if lens[k % 2] <= 10 else 2])
         pool[f"P{k}"] = np.array(_draw_params(rng, order))
         pnames.append(f"P{k}")
     for k in range(rng.randint(3, 4)):
-        pool[f"S{k}"] = np.array(_draw_series(rng, lens[k % 2], scale))
+        lay = rng.choice(["c64", "c64", "c64", "offset", "row", "fcol", "strided", "neg"])
+        pool[f"S{k}"] = build_array(_draw_series(rng, lens[k % 2], scale), lay)
+        layouts[f"S{k}"] = lay
         snames.append(f"S{k}")
     for k, v in pool.items():
         initial[k] = v.tolist()
@@ -507,7 +509,8 @@ def session(ctx, rng, sid):
     def fail(key, entry, what, extra=None):
         nonlocal reported
         reported = True
-        rep = {"session": sid, "pool_at_start": initial, "history": history,
+        rep = {"session": sid, "pool_at_start": initial, "pool_layouts (others: float64 C-contiguous)": layouts,
+               "history": history,
                "failing_call": entry["step"], "case_at_time_of_call": entry["case"],
                "mean": entry["mean"], "ini": entry["ini"], "output_at_return": entry["out"]}
         rep.update(extra or {})
@@ -592,7 +595,7 @@ def session(ctx, rng, sid):
         with warnings.catch_warnings():
             warnings.simplefilter("ignore")
             mean, ini, out, exc, res = call_impl(kind, params, series, mean_arg, ini_arg)
-        if exc is not None and not exc.startswith("ValueError"):
+        if exc is not None:
             case["exception"] = exc
         rname = f"R{nres}"
         nres += 1
@@ -637,9 +640,10 @@ def run(ctx):
                 "text / shuffled / duplicate / float index) with values exactly representable in it; "
                 "sessions: a pool of coefficient / series arrays x 8..16 operations (call on pool objects "
                 "incl. the same object as coefficients and series, result object of an earlier call fed to "
-                "the inverse function, in-place rewrite of a pool array) with the oracle on every result at "
-                "return and after every later operation; non-trivial = distinct (kind, order, length class, "
-                "has NaN, error) signature")
+                "the inverse function, an earlier call repeated on the same objects, in-place rewrite of a pool "
+                "array) with the oracle on every result at return and after every later operation; "
+                "non-trivial = distinct (kind, order, length class, has NaN, error) signature, distinct (kind, "
+                "representation, error) and distinct session-call signature")
     ctx.trusted = cm.STD_TRUST + [
         "default sim_mean of armodel_residual (numpy.nanmean) is computed by the harness, not the model"]
     ctx.tested_not_proved = [
@@ -682,8 +686,6 @@ def run(ctx):
                         "params": case["params"], "mean": mean, "ini": ini,
                         "series": case["series"][:8], "output": None if out is None else out[:8]})
     ctx.notes["undocumented_argument_types_refused"] = unsupported
-    # operation sequences on shared objects (oracle only)
-    sess_failed = sessions(ctx)
     bad, nshards, failed = cm.run_case_files(PID, HEADER, "arcase", "ar_ok", terms)
     ctx.notes["correspondence_cases"] = len(terms)
     ctx.notes["correspondence_mismatches"] = len(bad)
@@ -695,6 +697,8 @@ def run(ctx):
         for key, what in oracle(case, mean, ini, out):
             orc_fail_idx.add(i)
             ctx.failure(key, {"case": case, "mean": mean, "ini": ini, "output": out}, what)
+    # operation sequences on shared objects (oracle only)
+    sess_failed = sessions(ctx)
     if sess_failed and not orc_fail_idx:
         orc_fail_idx.add(-1)         # a concrete failing history has been reported
     cm.settle(ctx, proved, bad, failed, orc_fail_idx,
